@@ -72,6 +72,7 @@ theorem safe_regOf (fr : Frame) (o : Opd) (h : ∀ r ∈ opdRegs o, Defined fr.r
   | ext n => exact Safe.uns _
   | none => exact Safe.stuck _
   | bad => exact Safe.uns _
+  | up i => exact Safe.uns _
 
 theorem safe_readOpd (s : RSt) (o : Opd) (n : Nat) (h : ∀ r ∈ opdRegs o, Defined s.fr.regs r) : Safe (readOpd s o n) := by
   unfold readOpd
@@ -108,19 +109,34 @@ theorem safe_extCall (name : String) (args : List UInt64) (now sr : UInt64) : Sa
 theorem cellFor_regs (s : RSt) (rg : Region) : (cellFor s rg).1.fr.regs = s.fr.regs := by
   unfold cellFor; split <;> rfl
 
+theorem safe_curCell (s : RSt) (i : Nat) : Safe (curCell s i) := by
+  unfold curCell
+  split
+  · exact Safe.stuck _
+  · split
+    · exact Safe.ok _
+    · exact Safe.stuck _
+
 theorem safe_cellsFor : ∀ (os : List Opd) (s : RSt), (∀ r ∈ os.flatMap opdRegs, Defined s.fr.regs r) → Safe (cellsFor s os) := by
   intro os
   induction os with
   | nil => intro s _; exact Safe.ok _
   | cons o os ih =>
     intro s h
-    simp only [cellsFor]
-    refine Safe.bind (safe_regOf _ _ (fun r hr => h r (by simp only [List.flatMap_cons, List.mem_append]; exact Or.inl hr))) ?_
-    intro rg
-    refine Safe.bind (ih _ ?_) (fun _ => Safe.ok _)
-    intro r hr
-    rw [cellFor_regs]
-    exact h r (by simp only [List.flatMap_cons, List.mem_append]; exact Or.inr hr)
+    have hrest : ∀ r ∈ os.flatMap opdRegs, Defined s.fr.regs r := by
+      intro r hr; exact h r (by simp only [List.flatMap_cons, List.mem_append]; exact Or.inr hr)
+    cases o with
+    | up i =>
+      simp only [cellsFor]
+      exact Safe.bind (safe_curCell _ _) (fun _ => Safe.bind (ih _ hrest) (fun _ => Safe.ok _))
+    | _ =>
+      simp only [cellsFor]
+      refine Safe.bind (safe_regOf _ _ (fun r hr => h r (by simp only [List.flatMap_cons, List.mem_append]; exact Or.inl hr))) ?_
+      intro rg
+      refine Safe.bind (ih _ ?_) (fun _ => Safe.ok _)
+      intro r hr
+      rw [cellFor_regs]
+      exact hrest r hr
 
 theorem safe_newClosure (P : Prog) (s : RSt) (g : Nat) (h : ∀ r ∈ upsOf P g, Defined s.fr.regs r) : Safe (newClosure P s g) := by
   unfold newClosure
@@ -155,14 +171,6 @@ theorem safe_closeOffs (rg : Region) : ∀ (offs : List Nat) (s : RSt), Safe (cl
     intro s
     simp only [closeOffs]
     exact Safe.bind (safe_readN _ _ _) (fun _ => Safe.bind (safe_closeHandle _ _) (fun _ => ih _))
-
-theorem safe_curCell (s : RSt) (i : Nat) : Safe (curCell s i) := by
-  unfold curCell
-  split
-  · exact Safe.stuck _
-  · split
-    · exact Safe.ok _
-    · exact Safe.stuck _
 
 def CallSafe (callF : CallF) : Prop := ∀ g ws clo glob st tr, Safe (callF g ws clo glob st tr)
 
